@@ -1,5 +1,6 @@
 import Bpmn.Props.C12
 import Bpmn.Props.EngineCurrent
+import Bpmn.Props.C12Current
 open Bpmn.Props.C12 Bpmn.Props.EngineCurrent
 #print axioms C12_partial
 #print axioms settle_holds_parent
@@ -8,3 +9,6 @@ open Bpmn.Props.C12 Bpmn.Props.EngineCurrent
 #print axioms C12_counterexample_reentry
 #print axioms current_subReturns_ok
 #print axioms current_facts_known
+#print axioms current_relay_first
+#print axioms current_sub_completion
+#print axioms current_sub_monitor_first
